@@ -86,7 +86,7 @@ def check(ctx) -> Result:
         ok = len(aug) == 1 and len(st) == 1 and src(aug[0].target) in src(st[0].value) and aug[0].lineno < st[0].lineno
         res.frozen(ok, "I-inverse-cdf", f.qualname, f.site(), f.qualname, "cumulative value stored after adding the state's own probability", "cumulative distribution is not the inclusive running sum", construct=src(f.node)[:100])
     # visible-space results (K1 is a known finding)
-    n = rb_states.run(ctx, res, only=["Sampler.", "QuickSampler."], rules={"B4-public-result-visible", "B1-post-selection-visible", "B3-herald-side"})
+    n = rb_states.run(ctx, res, only=["Sampler.", "QuickSampler."], rules={"B4-public-result-visible", "B1-post-selection-visible", "B3-herald-side", "B5-counts-same-space"})
     res.floor("B4 checks", n, 6)
     ng = rg_mass.check_function(ctx, res, no)
     res.floor("G stores in sample_N_outputs", ng, 1)
